@@ -1,4 +1,5 @@
 import PbProofs.Crop
+import PbModel.Gen.Time
 
 /-! # C01 — Retained samples keep their absolute timestamps under every crop or slice
 
@@ -118,5 +119,51 @@ example :
     (pipeline { t0 := some 100, rate := 1000, len := 25 } (Sel.id 25)
       [.slice ⟨some 3, some 20, some 2⟩, .fastLen, .slice ⟨some (-4), none, none⟩] 0).toOption.map
       (fun r => (r.2.first, r.2.stride, r.2.count)) = some (13, 2, 4) := by decide
+
+set_option linter.unusedTactic false in
+set_option linter.unreachableTactic false in
+set_option linter.unnecessarySeqFocus false in
+/-- Tie to the source: the stamp arithmetic of `Signal._time_slice`, `dt`, `time_length`, `stop_time` and of
+`snippet`, translated symbolically on every run (`Gen/Time.lean`), is the ledger arithmetic the theorems above
+are about: the new start is `start + first/rate` (only with a start time), the rate is divided by the step
+exactly when the step exceeds one, `stop = start + len/rate`, and `snippet`'s re-stamped start followed by
+the integer slice puts output sample 0 at position `t`.  Algebraically equal rewrites keep the theorem. -/
+theorem C01_source_formulas :
+    (∀ (L : Ledger) (σ : Sel),
+      (L.select σ).t0 = L.t0.map (fun t => Gen.Time.startFormula t (σ.first + σ.off) L.rate) ∧
+      (L.select σ).rate = if Gen.Time.rateGuard σ.stride = true then Gen.Time.rateFormula L.rate σ.stride else L.rate) ∧
+    (∀ L : Ledger, L.stopTime = L.t0.map (fun t => Gen.Time.stopFormula t (Gen.Time.lengthFormula L.len L.rate))) ∧
+    (∀ rate : Rat, Gen.Time.dtFormula rate = 1 / rate) ∧
+    (∀ t0 i t rate : Rat,
+      Gen.Time.startFormula (Gen.Time.snippetStart t0 (Gen.Time.snippetShift i t) (Gen.Time.dtFormula rate)) i rate
+        = t0 + (i + -(i - t)) / rate) ∧
+    Gen.Time.startGuard = "self.start_time is not None" ∧ Gen.Time.stopNoneWithoutStart = true := by
+  refine ⟨?_, ?_, ?_, ?_, by decide, by decide⟩
+  · intro L σ
+    constructor
+    · simp only [Ledger.select]
+      refine congrArg (fun f => Option.map f L.t0) (funext fun t => ?_)
+      simp only [Gen.Time.startFormula] <;> first | rfl | ring1
+    · have hg : Gen.Time.rateGuard (σ.stride : Rat) = decide (σ.stride > 1) := by
+        simp only [Gen.Time.rateGuard]
+        by_cases h : σ.stride > 1
+        · have : ((σ.stride : Nat) : Rat) > 1 := by exact_mod_cast h
+          simp [h, this]
+        · have : ¬ ((σ.stride : Nat) : Rat) > 1 := by
+            intro h'; exact h (by exact_mod_cast h')
+          simp [h, this]
+      simp only [Ledger.select, hg, decide_eq_true_eq]
+      split
+      · simp only [Gen.Time.rateFormula] <;> first | rfl | ring1
+      · rfl
+  · intro L
+    simp only [Ledger.stopTime, Ledger.timeAt]
+    refine congrArg (fun f => Option.map f L.t0) (funext fun t => ?_)
+    simp only [Gen.Time.stopFormula, Gen.Time.lengthFormula] <;> first | rfl | ring1
+  · intro rate
+    simp only [Gen.Time.dtFormula] <;> first | rfl | ring1
+  · intro t0 i t rate
+    simp only [Gen.Time.startFormula, Gen.Time.snippetStart, Gen.Time.snippetShift, Gen.Time.dtFormula] <;>
+      first | rfl | ring1 | (by_cases hr : rate = 0 <;> [simp [hr]; (field_simp; ring1)])
 
 end Pb.C01
